@@ -2,6 +2,7 @@ import MemVerif.Gen.Arith
 import MemVerif.Gen.Guards
 import MemVerif.Model.Buckets
 import MemVerif.Drv.Stack
+import MemVerif.Drv.Pool
 /-!
 Line-protocol driver: reads one operation per line on stdin, runs the executable model, prints the
 model's result in the harness' canonical format. `tools/` diff the two streams.
@@ -47,6 +48,7 @@ def arith (fn : String) (args : List String) : Option String :=
 
 structure DState where
   stack : StackSt := {}
+  pool : PoolSt := {}
 
 /-- one trace line in, the model's line out -/
 def step (ds : DState) (line : String) : DState × String :=
@@ -60,7 +62,8 @@ def step (ds : DState) (line : String) : DState × String :=
       | none => (ds, s!"bad-op {line}")
   | "header" :: rest =>
       let subj := (hdr rest "subject").getD ""
-      ({ ds with stack := { cfg := parseCfg rest, subject := subj } }, line.trimAscii.toString)
+      ({ ds with stack := { cfg := parseCfg rest, subject := subj }, pool := { cfg := parseCfg rest } },
+       line.trimAscii.toString)
   | subj :: rest =>
       let env := parseEnv (secs.getD 1 "")
       let obsState := secs.getD 4 ""
@@ -75,6 +78,12 @@ def step (ds : DState) (line : String) : DState × String :=
       else if subj = "static" then
         let (st, res, up, sts) := staticStep ds.stack rest
         fin st (res, up, sts)
+      else if subj = "pool" then
+        let (st, res, up, sts) := poolStep ds.pool rest env
+        ({ ds with pool := st }, mkLine (secs.getD 0 "") (secs.getD 1 "") res up sts)
+      else if subj = "coll" then
+        let (st, res, up, sts) := collStep ds.pool rest env
+        ({ ds with pool := st }, mkLine (secs.getD 0 "") (secs.getD 1 "") res up sts)
       else if subj = "oracle-fail" || subj = "summary" then (ds, line.trimAscii.toString)
       else (ds, s!"bad-op {line}")
   | [] => (ds, "")
